@@ -144,6 +144,12 @@ func (session *clientSession) processInput(maxDuration time.Duration) (chan base
 			}
 			session.logger.Debugf("received new: %v", &chunk)
 			session.lastChunk = &chunk
+			if session.inputClosed.Peek() {
+				// the input is being shut down and the buffer is saving the chunks before and after this one from the same
+				// channel: sending it now could deliver it ahead of an older chunk, hand it back instead
+				session.logger.Infof("stop requested (normal stage), hand back %s", chunk.String())
+				return session.collectLeftovers(nil, endImmediately), noReconnect
+			}
 
 		case <-maxSessionDurationSignal:
 			session.logger.Info("max session duration reached, stopping to reconnect")
